@@ -123,6 +123,21 @@ def write_bam(path, lib):
             recs.append((BIG, 0, 2 * i, a))
             continue
         cid = names.index(f['contig'])
+        if f.get('placed'):
+            # unmapped record placed on a contig (at the coordinate of a mate that is not in the file): 'single' is an
+            # unpaired record, 'paired' a read 1 whose mate is said to be mapped at the same coordinate
+            a = pysam.AlignedSegment(h)
+            a.query_name = qn
+            a.query_sequence = mkseq(30, True, False, i)
+            a.query_qualities = pysam.qualitystring_to_array('I' * 30)
+            a.reference_id = cid
+            a.reference_start = f['start']
+            a.flag = 4 if f['placed'] == 'single' else (1 | 4 | 32 | 64)
+            if f['placed'] != 'single':
+                a.next_reference_id = cid
+                a.next_reference_start = f['start']
+            recs.append((cid, f['start'], 2 * i, a))
+            continue
         a = pysam.AlignedSegment(h)
         a.query_name = qn
         a.query_sequence = mkseq(f['len'], f['catg'], f['rev'], i)
@@ -265,7 +280,7 @@ def run_lib(n, case, tm, tagging, scratch):
         tm.run_multiome_tagging_cmd([inp, '-method', 'nla', '-o', ser])
         serial = canon(ser)
         res['serial'] = {k: v[0] for k, v in serial.items()}
-        res['serial_shown'] = {k: _brief(v[1]) for k, v in serial.items()}
+        res['serial_shown'] = {} if case.get('deep') else {k: _brief(v[1]) for k, v in serial.items()}
     except BaseException as e:
         res['error'] = 'serial: %s: %s' % (type(e).__name__, e)
         return res
@@ -335,7 +350,7 @@ def run_lib(n, case, tm, tagging, scratch):
         finally:
             tm.generate_tasks, tagging.run_tagging_task = orig_gen, orig_task
         r['jobs'] = captured.get('jobs')
-        r['tasklog'] = tasklog if not (run['mode'] == 'tiled' and run['use_pool']) and run['mode'] != 'cpp' else None
+        r['tasklog'] = tasklog if not (run['mode'] == 'tiled' and run['use_pool']) and run['mode'] != 'cpp' and not case.get('deep') else None
         res['runs'].append(r)
     shutil.rmtree(d, ignore_errors=True)
     return res
